@@ -6,14 +6,14 @@ CFG = dict(
                "one non-zero sample per identity with that sum or none when it is zero (merge_exact, merge_distinct, "
                "merge_no_zero_sample), result passes CheckValid with ids 1..n (merge_valid), weights independent of input order "
                "(merge_perm), header rules (merge_headers, merge_period_max with its F25 _refuted twin, comments_dedup_is_union), "
-               "the re-merge recursion stops after one extra pass (remerge_terminates), compaction idempotent up to ids/order "
-               "(compact_idempotent_partial). The model is tied to /repo's Merge by comparing COMPLETE result dumps (ids and order "
+               "the re-merge recursion stops after one extra pass (remerge_terminates), Compact returns a merge result unchanged, ids "
+               "and order included (compact_idempotent), the varint sample-key encoding is injective (sample_key_injective). The model is tied to /repo's Merge by comparing COMPLETE result dumps (ids and order "
                "included) on 1.2k generated lists per quick run (60k thorough) and sampleKey byte for byte.",
     level_note="Identities never mention ids: frame = (binary = page-rounded size/offset/build-id-or-file, address - mapping start, "
-               "[(function name, system name, file, start line), line, column] in inline order, folded). Not proved but evaluated on every "
-               "case: dump equality of Compact(Compact(x)) (ids/order), aliasing/mutation of inputs (reflect pointer sets, Go side), "
+               "[(function name, system name, file, start line), line, column] in inline order, folded). Not provable in an id model but evaluated on "
+               "every case: aliasing/mutation of inputs (reflect pointer sets, Go side), "
                "kernel relocation symbol provenance. Trusted: Coq kernel + vm_compute, harness, strconv hex / strings.Join injectivity in "
-               "Location.key and prefix-decodability of the varint sample key (modelled as tuples; bytes compared with the real sampleKey).",
+               "Location.key (modelled as the tuple of slots).",
     rule="inputs = lists of 0..6 profiles instantiated from one pool of functions/mappings/locations/samples with per-profile id "
          "layouts (dense, shuffled, sparse/huge, rotated so ids collide) and load addresses; systematic single-attribute pairs (61 "
          "attributes of mapping/function/line/location/label/num-label/stack x same-profile, two-profile, crossed, cancelling); header "
@@ -27,8 +27,8 @@ CFG = dict(
                   "mutation of inputs are observed on the Go side, not modelled)",
                   "per-source id memo tables (locationsByID, functionsByID, mappingsByID) modelled as recomputation: equivalent for "
                   "sources with unique ids (CheckValid)",
-                  "locationKey.lines (hex numbers joined by '|') and sampleKey (varint bytes) modelled by the tuples they encode; the "
-                  "byte encoding of sampleKey is transcribed (skey_bytes) and compared with the real one"],
+                  "locationKey.lines (hex numbers joined by '|') modelled by the tuple of slots it encodes; sampleKey modelled as a tuple, "
+                  "its varint byte encoding transcribed (skey_bytes), proved injective and compared with the real sampleKey byte for byte"],
     assumptions=["input profiles are valid (CheckValid) with unique ids; int64/uint64 fields are in range (Go types)",
                  "binary identity = Mapping.key's notion of the same binary (page-rounded size, offset, build id or else file)",
                  "Merge of >= 2 in-memory profiles with a nil PeriodType panics (compatible() dereferences it); Parse never produces "
